@@ -14,31 +14,12 @@
 (* generator (operationally: the stack machine of fst_traverse.walk, one     *)
 (* action per next()).  Invariants are the theorems of the property: every   *)
 (* finished iteration equals the declarative sequence of Walk.tla.           *)
-EXTENDS Walk, TLC
+EXTENDS WalkTrees, TLC
 
 CONSTANTS MaxN, GenMaxN
 
 VARIABLES T, F, mode, start, cur, hist, done, g
 vars == <<T, F, mode, start, cur, hist, done, g>>
-
-(* ---------------------------------------------------------------- trees -- *)
-RECURSIVE AncSelf(_, _)
-AncSelf(p, x) == {x} \cup (IF p[x] = 0 THEN {} ELSE AncSelf(p, p[x]))
-
-ParVecs(n) == {p \in [1..n -> 0..(n - 1)] :
-                 /\ p[1] = 0
-                 /\ \A i \in 2..n : p[i] >= 1 /\ p[i] < i
-                 /\ \A i \in 2..n : p[i] \in AncSelf(p, i - 1)}
-
-RECURSIVE IncSeq(_)
-IncSeq(S) == IF S = {} THEN <<>> ELSE <<MinOf(S)>> \o IncSeq(S \ {MinOf(S)})
-
-MkTree(n, p, mirror) ==
-  [n    |-> n,
-   par  |-> p,
-   kids |-> [x \in 1..n |-> LET s == IncSeq({i \in 1..n : p[i] = x}) IN IF mirror THEN Rev(s) ELSE s],
-   lab  |-> [x \in 1..n |-> x],
-   mirror |-> mirror]
 
 NoGen == [on |-> "-", back |-> FALSE, rec |-> FALSE, self |-> FALSE, dev |-> FALSE, stack |-> <<>>, out |-> <<>>,
           fin |-> FALSE]
